@@ -297,12 +297,14 @@ def bin_path(name, release=False):
     return os.path.join(target, "release" if release else "debug", name)
 
 
-def driver_path():
-    return os.path.join(LEAN, ".lake", "build", "bin", "driver")
+def driver_path(engine=None):
+    return os.path.join(LEAN, ".lake", "build", "bin", "driver" if engine is None else f"driver-{engine}")
 
 
-def build_driver(ctx):
-    ok, log = lake_build(ctx, ["driver"])
+def build_driver(ctx, engine=None):
+    """one executable per engine (`driver-pure|arena|coll|strs|pool`): an engine does not depend on the others' handlers"""
+    target = "driver" if engine is None else f"driver-{engine}"
+    ok, log = lake_build(ctx, [target])
     ctx.add_ob("build:driver", "build", ok, "" if ok else log[-2000:])
     return ok
 
@@ -319,9 +321,10 @@ def run_harness(argv, env, ctx):
         return subprocess.CompletedProcess(argv, -999, txt(e.stdout), txt(e.stderr) + f"\nTIMEOUT: the harness did not terminate within {limit} s (hang)")
 
 def run_driver(engine, text, timeout=3600):
-    if not os.path.exists(driver_path()):
-        return 127, "", "driver executable missing (lake build driver failed)"
-    p = subprocess.run([driver_path(), engine], input=text, capture_output=True, text=True, timeout=timeout)
+    exe = driver_path("pure" if engine == "pure" else engine)
+    if not os.path.exists(exe):
+        return 127, "", f"driver executable missing (lake build driver-{engine} failed)"
+    p = subprocess.run([exe], input=text, capture_output=True, text=True, timeout=timeout)
     return p.returncode, p.stdout, p.stderr
 
 
